@@ -346,7 +346,7 @@ def charname_eof(ctx, lexpr):
     from ..sim import Adt, Ref, Rng, Tup
     r = ctx.rule("R-CHARNAME-EOF", "every proper prefix of every character name the reader accepts, cut off by the end of "
                                    "input, is reported with an Eof code (the name table and the incomplete-name table agree)")
-    fn = lexpr.fn("parse::read::parse_r6rs_char")
+    fn = lexpr.fn("parse::read::parse_r6rs_char") or lexpr.fn("parse::read::Read::parse_r6rs_char")
     if fn is None:
         r.anchor_missing("parse::read::parse_r6rs_char")
         return
